@@ -9,7 +9,7 @@ SPEC = dict(
         "the wall clock cannot be replaced (reads call time.Now()): generated expiry instants stay outside [T0-900s, T0+10^6s], so a defect that needs a read within a second of an expiry instant is out of reach; log time is varied freely",
         "log time never runs ahead of the wall clock in these runs",
         "two-stage commands (SETNX, LPOP/RPOP, SPOP, SADD, SREM, ZREM) are modelled with their leader-side pre-read at the wall clock",
-        "modelled deviations: PERSIST answers 1 for any existing key, TTL of a missing/expired key is -1; APPEND/SETRANGE with an empty operand are not generated",
+        "two reply-only differences from Redis are recorded as known findings of C08 and switched in lib/model by them (PERSIST answers 1 for any existing key, TTL of a missing/expired key is -1); APPEND/SETRANGE with an empty operand are not generated",
         "the compaction filter of the rocksdb engine keeps expired data for 48 h (lazyCleanExpired); physical removal by it is not exercised",
     ],
     quick=[
